@@ -232,6 +232,45 @@ theorem dsl_faithful (mkStr : Name → Val) (descr : Val) (args : List (Name × 
   | none => rfl
   | some items => simp [upd, hS]
 
+open Lemmas.ConfigDsl in
+/-- the check the driver runs on every written module implies the hypotheses of `dsl_faithful` -/
+theorem writtenOkB_sound (args : List (Name × DslArg Val)) (h : writtenOkB args = true) :
+    WrittenOk args ∧ GroupsOk args := by
+  simp only [writtenOkB, Bool.and_eq_true, decide_eq_true_eq, Bool.not_eq_true', List.all_eq_true] at h
+  obtain ⟨⟨⟨h1, h2⟩, h3⟩, h4⟩ := h
+  refine ⟨⟨h1, fun hm => ?_, fun k v kwds hk => ?_⟩, fun g ms hg m hm => ?_⟩
+  · have : (args.map (·.1)).contains "description" = true := by simpa using hm
+    rw [this] at h2; cases h2
+  · have := h3 _ hk
+    simpa using this
+  · have := h4 _ hg
+    simp only [List.all_eq_true, List.any_eq_true, Bool.and_eq_true, beq_iff_eq] at this
+    obtain ⟨kv', hkv', hn, hw⟩ := this m hm
+    exact ⟨kv'.2, by rw [← hn]; exact hkv', hw⟩
+
+/-- the check the driver runs on every class description implies `WellFormed`, the hypothesis of the theorems -/
+theorem wellFormedB_sound (c : ClassDesc DT Val) (h : wellFormedB c = true) : WellFormed c := by
+  simp only [wellFormedB, Bool.and_eq_true, decide_eq_true_eq, List.all_eq_true, Bool.or_eq_true, Bool.not_eq_true',
+    bne_iff_ne, ne_eq, Option.isNone_iff_eq_none] at h
+  obtain ⟨⟨h1, h2⟩, h3⟩ := h
+  refine ⟨h1, h2, fun pd hpd hl b hb hn => ?_⟩
+  rcases h3 pd hpd with h' | h'
+  · rw [hl] at h'; cases h'
+  · rcases h' b hb with h'' | h''
+    · exact absurd hn h''
+    · exact h''
+
+/-- end to end, from the text of a configuration file: a well-written module whose text contains one of the errors of
+the statement (read by the specification: `specCfg`) — e.g. a parameter written `p=None`, `p=Param(None, max=20)` where
+`None` is not a value of the datatype — is rejected, whatever the class -/
+theorem written_config_rejected (ops : Ops DT Val) (c : ClassDesc DT Val) (wf : WellFormed c) (mkStr : Name → Val)
+    (descr : Val) (args : List (Name × DslArg Val)) (hw : writtenOkB args = true)
+    (h : Offence ops c (specCfg mkStr descr args)) :
+    ∃ cfg es, modDict mkStr descr args = some cfg ∧ applyConfig ops c cfg = .error es ∧ es ≠ [] := by
+  obtain ⟨ok, gok⟩ := writtenOkB_sound args hw
+  obtain ⟨es, h1, h2⟩ := rejected_whole ops c _ wf h
+  exact ⟨_, es, dsl_faithful mkStr descr args ok gok, h1, h2⟩
+
 /-! ## written exactly once, before the first poll -/
 
 /-- for an accepted configuration of a well-formed class, and for EVERY write oracle (plain `write_<p>`, common write
@@ -611,6 +650,13 @@ theorem exArgs_groups : Lemmas.ConfigDsl.GroupsOk (exArgs ++ [("g", .group ["pa"
 example : groupsOf exArgs = [] ∧ modDict (fun _ => 0) 7 exArgs = some
     [("description", .prop (.bare 7)), ("pa", .acc [("max", 20), ("value", -999)]), ("pb", .acc [("value", 3)]),
      ("pc", .acc [("min", 1)])] := ⟨rfl, rfl⟩
+
+example : writtenOkB (exArgs ++ [("g", .group ["pa", "pc"])]) = true ∧ wellFormedB exClassL = true := by decide
+
+/-- the hypothesis of `written_config_rejected` is met: the written `-999` is an ill-typed value by the specification -/
+example : Offence toyOps exClass (specCfg (fun _ => 0) 7 [("pa", .param (some (-999)) [("max", 20)])]) :=
+  .param exParam (0, 10) (some 1) [("max", 20), ("value", -999)] (List.mem_singleton.2 rfl) rfl (Or.inl rfl)
+    (.badValue (0, 20) (-999) rfl (Or.inl rfl) rfl)
 
 /-- … so the module is rejected for the ill-typed value, end to end -/
 example : (match (modDict (fun _ => 0) 7 exArgs).map (applyConfig toyOps { exClass with params :=
